@@ -290,7 +290,7 @@ class Quantity@@(int, Rule):
 _FWD_N = [0]
 
 
-@ob('forward-field', marks=['accept', 'reject'], budget=(60, 200),
+@ob('forward-field', marks=['accept', 'reject'], budget=(120, 300),
     bounds="a data class and a decorated function whose field / parameter is annotated with the NAME of a constrained type defined "
            "later ('Quantity': ge=0) plus constraints of its own (Field(le=100), Field(le=5), List['Quantity'] with max_length=2, "
            "Param(le=100)); values unbounded solver ints | \"5\" | \"x\"; freshly declared per path (first call included): an accepted "
